@@ -1,4 +1,351 @@
 package main
 
-// codec field coverage for C12 (filled in below)
-func genC12Codecs(g *Gen) error { return nil }
+// C12 — field coverage of the option / plan / chunk codecs.
+//
+// For a pair of functions (encode, decode) over a struct the extractor lists, by reading the
+// function bodies with go/ast:
+//   fields          the fields of the struct (embedded fields by their type name)
+//   encoded         fields of the struct the encoder reads           (recv.X)
+//   decoded         fields of the struct the decoder sets            (recv.X = …, &T{X: …})
+//   wireWritten     fields of the wire message the encoder sets      (pb.X = …, &pb{X: …})
+//   wireRead        fields of the wire message the decoder reads     (pb.X, pb.GetX())
+// The Lean side proves with `decide`: wireWritten ⊆ wireRead, encoded ⊆ decoded, and
+// fields ⊆ encoded ∪ transient, where `transient` is the recorded list of fields the code
+// deliberately does not ship (Facts.lean).
+
+import (
+	"fmt"
+	"go/ast"
+	"sort"
+	"strings"
+)
+
+func c12UniqSorted(xs []string) []string {
+	m := map[string]bool{}
+	for _, x := range xs {
+		m[x] = true
+	}
+	out := make([]string, 0, len(m))
+	for x := range m {
+		out = append(out, x)
+	}
+	sort.Strings(out)
+	return out
+}
+
+// c12StructFields lists the field names of a struct type declared in a file.
+func (g *Gen) c12StructFields(rel, typ string) ([]string, error) {
+	f, err := g.Parse(rel)
+	if err != nil {
+		return nil, err
+	}
+	for _, d := range f.Decls {
+		gd, ok := d.(*ast.GenDecl)
+		if !ok {
+			continue
+		}
+		for _, sp := range gd.Specs {
+			ts, ok := sp.(*ast.TypeSpec)
+			if !ok || ts.Name.Name != typ {
+				continue
+			}
+			st, ok := ts.Type.(*ast.StructType)
+			if !ok {
+				return nil, fmt.Errorf("%s: %s is not a struct", rel, typ)
+			}
+			var out []string
+			for _, fl := range st.Fields.List {
+				if len(fl.Names) == 0 {
+					n := typeName(fl.Type)
+					if i := strings.LastIndexByte(n, '.'); i >= 0 {
+						n = n[i+1:]
+					}
+					out = append(out, n)
+				}
+				for _, n := range fl.Names {
+					out = append(out, n.Name)
+				}
+			}
+			return out, nil
+		}
+	}
+	return nil, fmt.Errorf("%s: type %s not found", rel, typ)
+}
+
+// c12Selectors lists X for every `v.X` / `v.GetX()` in a node where v is the identifier `v`.
+func c12Selectors(n ast.Node, v string, stripGet bool) []string {
+	var out []string
+	ast.Inspect(n, func(x ast.Node) bool {
+		se, ok := x.(*ast.SelectorExpr)
+		if !ok {
+			return true
+		}
+		id, ok := se.X.(*ast.Ident)
+		if !ok || id.Name != v {
+			return true
+		}
+		name := se.Sel.Name
+		if stripGet && strings.HasPrefix(name, "Get") && len(name) > 3 {
+			name = name[3:]
+		}
+		out = append(out, name)
+		return true
+	})
+	return c12UniqSorted(out)
+}
+
+// c12Assigned lists X for every assignment `v.X = …` / `v.X[i] = …` / `v.X = append(v.X, …)`.
+func c12Assigned(n ast.Node, v string) []string {
+	var out []string
+	var base func(e ast.Expr) (string, bool)
+	base = func(e ast.Expr) (string, bool) {
+		switch t := e.(type) {
+		case *ast.SelectorExpr:
+			if id, ok := t.X.(*ast.Ident); ok && id.Name == v {
+				return t.Sel.Name, true
+			}
+			return base(t.X)
+		case *ast.IndexExpr:
+			return base(t.X)
+		case *ast.StarExpr:
+			return base(t.X)
+		}
+		return "", false
+	}
+	ast.Inspect(n, func(x ast.Node) bool {
+		as, ok := x.(*ast.AssignStmt)
+		if !ok {
+			return true
+		}
+		for _, l := range as.Lhs {
+			if name, ok := base(l); ok {
+				out = append(out, name)
+			}
+		}
+		return true
+	})
+	return c12UniqSorted(out)
+}
+
+// c12LiteralKeys lists the keys of every composite literal of a type whose name ends in typ.
+func (g *Gen) c12LiteralKeys(n ast.Node, typ string) []string {
+	var out []string
+	ast.Inspect(n, func(x ast.Node) bool {
+		cl, ok := x.(*ast.CompositeLit)
+		if !ok || cl.Type == nil {
+			return true
+		}
+		tn := typeName(cl.Type)
+		if tn != typ && !strings.HasSuffix(tn, "."+typ) {
+			return true
+		}
+		for _, e := range cl.Elts {
+			if kv, ok := e.(*ast.KeyValueExpr); ok {
+				out = append(out, g.Src(kv.Key))
+			}
+		}
+		return true
+	})
+	return c12UniqSorted(out)
+}
+
+func c12ParamName(fd *ast.FuncDecl, i int) string {
+	k := 0
+	for _, p := range fd.Type.Params.List {
+		for _, n := range p.Names {
+			if k == i {
+				return n.Name
+			}
+			k++
+		}
+	}
+	return ""
+}
+
+func c12RecvName(fd *ast.FuncDecl) string {
+	if fd.Recv != nil && len(fd.Recv.List) == 1 && len(fd.Recv.List[0].Names) == 1 {
+		return fd.Recv.List[0].Names[0].Name
+	}
+	return ""
+}
+
+// c12PbCodec: encode(x *T) *pb.M  /  decode(pb *pb.M) *T with keyed literals.
+func (g *Gen) c12PbCodec(tag, structRel, structTyp, rel, enc, dec, pbTyp string) error {
+	fields, err := g.c12StructFields(structRel, structTyp)
+	if err != nil {
+		return err
+	}
+	fe, err := g.Func(rel, enc)
+	if err != nil {
+		return err
+	}
+	fdn, err := g.Func(rel, dec)
+	if err != nil {
+		return err
+	}
+	ev := c12ParamName(fe, 0)
+	dv := c12ParamName(fdn, 0)
+	encoded := c12Selectors(fe.Body, ev, false)
+	wireWritten := c12UniqSorted(append(g.c12LiteralKeys(fe.Body, pbTyp), c12Assigned(fe.Body, "pb")...))
+	wireRead := c12Selectors(fdn.Body, dv, true)
+	// the decoder builds the struct in a literal and may patch fields of the result variable
+	decoded := g.c12LiteralKeys(fdn.Body, structTyp)
+	for _, v := range []string{"opt", "mm", "o", "res", "ret", "schema", "io", "indexR"} {
+		decoded = append(decoded, c12Assigned(fdn.Body, v)...)
+	}
+	decoded = c12UniqSorted(decoded)
+	// only struct fields count as "encoded" (method calls on the value are not fields)
+	isField := map[string]bool{}
+	for _, f := range fields {
+		isField[f] = true
+	}
+	var enc2 []string
+	for _, e := range encoded {
+		if isField[e] {
+			enc2 = append(enc2, e)
+		}
+	}
+	g.StrList("cov_"+tag+"_fields", fields)
+	g.StrList("cov_"+tag+"_encoded", enc2)
+	g.StrList("cov_"+tag+"_decoded", decoded)
+	g.StrList("cov_"+tag+"_wireWritten", wireWritten)
+	g.StrList("cov_"+tag+"_wireRead", wireRead)
+	return nil
+}
+
+// c12BinCodec: (x *T) Marshal(buf) / (x *T) Unmarshal(buf) over the binary codec helpers.
+func (g *Gen) c12BinCodec(tag, structRel, structTyp, rel string) error {
+	fields, err := g.c12StructFields(structRel, structTyp)
+	if err != nil {
+		return err
+	}
+	m, err := g.Func(rel, structTyp+".Marshal")
+	if err != nil {
+		return err
+	}
+	u, err := g.Func(rel, structTyp+".Unmarshal")
+	if err != nil {
+		return err
+	}
+	sz, err := g.Func(rel, structTyp+".Size")
+	if err != nil {
+		return err
+	}
+	g.StrList("cov_"+tag+"_fields", fields)
+	g.StrList("cov_"+tag+"_encoded", c12Selectors(m.Body, c12RecvName(m), false))
+	g.StrList("cov_"+tag+"_decoded", c12Assigned(u.Body, c12RecvName(u)))
+	g.StrList("cov_"+tag+"_sized", c12Selectors(sz.Body, c12RecvName(sz), false))
+	return nil
+}
+
+func genC12Codecs(g *Gen) error {
+	const qdir = "lib/util/lifted/influx/query/"
+	const edir = "engine/executor/"
+	g.P("/-! ### codec field coverage -/\n")
+	if err := g.c12PbCodec("options", qdir+"select.go", "ProcessorOptions", qdir+"processor_codec.go",
+		"encodeProcessorOptions", "decodeProcessorOptions", "ProcessorOptions"); err != nil {
+		return err
+	}
+	if err := g.c12PbCodec("measurement", c12dir+"ast.go", "Measurement", qdir+"processor_codec.go",
+		"encodeMeasurement", "decodeMeasurement", "Measurement"); err != nil {
+		return err
+	}
+	for _, t := range [][2]string{{"chunk", "chunk.go:ChunkImpl"}, {"column", "column.gen.go:ColumnImpl"}, {"bitmap", "column.gen.go:Bitmap"},
+		{"chunkTags", "chunk_tags.go:ChunkTags"}} {
+		p := strings.SplitN(t[1], ":", 2)
+		if err := g.c12BinCodec(t[0], edir+p[0], p[1], edir+"chunk_codec.gen.go"); err != nil {
+			return err
+		}
+	}
+	// query schema message: what EncodeQuerySchema writes and DecodeQuerySchema reads
+	fe, err := g.Func(qdir+"processor_codec.go", "EncodeQuerySchema")
+	if err != nil {
+		return err
+	}
+	fd, err := g.Func(qdir+"processor_codec.go", "DecodeQuerySchema")
+	if err != nil {
+		return err
+	}
+	g.StrList("cov_schema_wireWritten", g.c12LiteralKeys(fe.Body, "QuerySchema"))
+	g.StrList("cov_schema_wireRead", c12Selectors(fd.Body, c12ParamName(fd, 0), true))
+
+	// plan nodes: every node type MarshalBinary knows, with the message fields its closure sets,
+	// against the case of UnmarshalBinaryNode and the message fields that case reads
+	mb, err := g.Func(edir+"logic_plan_codec.go", "MarshalBinary")
+	if err != nil {
+		return err
+	}
+	ub, err := g.Func(edir+"logic_plan_codec.go", "UnmarshalBinaryNode")
+	if err != nil {
+		return err
+	}
+	written := map[string][]string{}
+	var order []string
+	ast.Inspect(mb.Body, func(n ast.Node) bool {
+		ts, ok := n.(*ast.TypeSwitchStmt)
+		if !ok {
+			return true
+		}
+		for _, st := range ts.Body.List {
+			cc := st.(*ast.CaseClause)
+			for _, l := range cc.List {
+				name := strings.TrimPrefix(typeName(l), "*")
+				if name == "HeuVertex" {
+					continue
+				}
+				var body ast.Node = &ast.BlockStmt{List: cc.Body}
+				written[name] = c12Assigned(body, "pb")
+				order = append(order, name)
+			}
+		}
+		return false
+	})
+	read := map[string][]string{}
+	constructs := map[string]bool{}
+	ast.Inspect(ub.Body, func(n ast.Node) bool {
+		sw, ok := n.(*ast.SwitchStmt)
+		if !ok || sw.Tag == nil || g.Src(sw.Tag) != "pb.Name" {
+			return true
+		}
+		for _, st := range sw.Body.List {
+			cc := st.(*ast.CaseClause)
+			for _, l := range cc.List {
+				name := strings.TrimPrefix(g.Src(l), "internal.LogicPlanType_")
+				var body ast.Node = &ast.BlockStmt{List: cc.Body}
+				read[name] = c12Selectors(body, "pb", true)
+				// does the case build a node at all? (a `return <non-nil>, nil`)
+				ast.Inspect(body, func(x ast.Node) bool {
+					if r, ok := x.(*ast.ReturnStmt); ok && len(r.Results) == 2 && g.Src(r.Results[0]) != "nil" && g.Src(r.Results[1]) == "nil" {
+						constructs[name] = true
+					}
+					return true
+				})
+			}
+		}
+		return false
+	})
+	g.P("/-- plan node type ↦ (message fields MarshalBinary sets for it, message fields the case of")
+	g.P("UnmarshalBinaryNode reads — `none` = no case for the type —, does that case build a node). -/")
+	g.P("def cov_plan : List (String × List String × Option (List String) × Bool) := [")
+	for i, n := range order {
+		var w []string
+		for _, x := range written[n] {
+			w = append(w, leanStr(x))
+		}
+		rd := "none"
+		if r, ok := read[n]; ok {
+			var q []string
+			for _, x := range r {
+				q = append(q, leanStr(x))
+			}
+			rd = "some [" + strings.Join(q, ", ") + "]"
+		}
+		sep := ","
+		if i == len(order)-1 {
+			sep = ""
+		}
+		g.P("  (%s, [%s], %s, %v)%s", leanStr(n), strings.Join(w, ", "), rd, constructs[n], sep)
+	}
+	g.P("]\n")
+	return nil
+}
